@@ -160,6 +160,14 @@ def p_len(ex, args, kw, st):
         return v.length
     if isinstance(v, SArr):
         return v.shape[0]
+    if isinstance(v, SBag):
+        # number of selected elements (a[mask], a.ravel())
+        if getattr(v, 'all_selected', False):
+            n = num_term(v.shape[0])
+            for d in v.shape[1:]:
+                n = n * num_term(d)
+            return n
+        return count_term(ex, SAgg('COUNT', v.shape, v.pred, lambda p: 1), st)
     raise Unsupported(f'len of {type(v).__name__}')
 
 
@@ -1494,6 +1502,11 @@ def dict_method(ex, d, meth, args, kw, st):
 def arr_method(ex, v, meth, args, kw, st):
     if meth == 'copy':
         return np_copy(ex, [v], kw, st)
+    if meth in ('ravel', 'flatten') and isinstance(v, SArr) and not args and not kw:
+        # every element, as a flat collection (the order is not modelled: a bag)
+        out = SBag(v.shape, lambda p: True, snap(v), v.kind)
+        out.all_selected = True
+        return out
     if meth == 'any':
         return agg_any(ex, v, st)
     if meth == 'all':
